@@ -49,6 +49,16 @@ Collapse(a) ==
       [] a.k = "user" -> [a EXCEPT !.args = [i \in 1..Len(a.args) |-> Collapse(a.args[i])]]
       [] OTHER -> a
 ForLang(lang, a) == IF lang = "typescript" THEN a ELSE Collapse(a)
+\* Go with the file-only option no_pointer_slice = true: a slice is nil-able as it stands, so an Option directly around a
+\* sequence is that sequence (documented purpose of the option); every other Option keeps its pointer
+RECURSIVE SliceOpt(_)
+SliceOpt(a) ==
+    CASE a.k \in {"opt", "undef"} -> (LET x == SliceOpt(a.e) IN IF x.k = "seq" THEN x ELSE [k |-> "opt", e |-> x])
+      [] a.k = "seq" -> [k |-> "seq", e |-> SliceOpt(a.e)]
+      [] a.k = "map" -> [k |-> "map", key |-> SliceOpt(a.key), val |-> SliceOpt(a.val)]
+      [] a.k = "user" -> [a EXCEPT !.args = [i \in 1..Len(a.args) |-> SliceOpt(a.args[i])]]
+      [] OTHER -> a
+ForLangO(lang, noptrslice, a) == IF lang = "go" /\ noptrslice THEN SliceOpt(Collapse(a)) ELSE ForLang(lang, a)
 
 IsOpt(t) == Abs(t).k = "opt"
 Unopt(a) == IF a.k = "opt" THEN a.e ELSE a
@@ -115,9 +125,12 @@ Holds(tp, rp) ==
 
 \* ---- conformance of an observed target tree with the abstract tree, for one language
 \* cfg: [prefix |-> str, mapping |-> [rustName -> targetName], aliases |-> [name -> name] (helper aliases defined in the file),
+\*       renames |-> [rustName -> serde(rename) of that type],
 \*       prims |-> BOOLEAN (judge category/capacity of primitives: C05 yes, C04 structure only)]
 Resolve(cfg, n) == IF n \in DOMAIN cfg.aliases THEN cfg.aliases[n] ELSE n
 NodeName(o) == IF "n" \in DOMAIN o THEN o.n ELSE ""
+\* the name a user type is DEFINED under: its serde(rename) if it has one (cfg.renames: Rust name -> renamed), else its Rust name
+Defined(cfg, n) == IF n \in DOMAIN cfg.renames THEN cfg.renames[n] ELSE n
 
 RECURSIVE Conf(_, _, _, _)
 Conf(lang, cfg, a, o) ==
@@ -129,7 +142,7 @@ Conf(lang, cfg, a, o) ==
            [] a.k = "opt" -> o.k \in {"opt", "undef"} /\ Conf(lang, cfg, a.e, o.e)
            [] a.k = "map" -> o.k = "map" /\ Conf(lang, cfg, a.key, o.key) /\ Conf(lang, cfg, a.val, o.val)
            [] a.k = "param" -> o.k = "user" /\ o.n = a.n /\ Len(o.args) = 0                 \* never prefixed or renamed
-           [] a.k = "user" -> /\ o.k = "user" /\ o.n = cfg.prefix \o a.n
+           [] a.k = "user" -> /\ o.k = "user" /\ o.n = cfg.prefix \o Defined(cfg, a.n)
                               /\ Len(o.args) = Len(a.args)
                               /\ \A i \in 1..Len(a.args) : Conf(lang, cfg, a.args[i], o.args[i])
            [] a.k = "prim" -> /\ o.k \in {"prim", "user"}
